@@ -23,7 +23,8 @@ def driver_engine(prog, extra_opaque=()):
 
 
 def analysis_engine(prog):
-    return terms.Engine(prog, inline=False)
+    # the command-line analysis with its private phase functions inlined
+    return terms.Engine(prog, inline=True, hooks=E.Hooks(["analysis::"]))
 
 
 def eval_sites(summ):
